@@ -425,3 +425,30 @@ macro_rules! rec_iface {
 rec_iface!(RecSerial, u8, InterfaceKind::Serial4Line);
 rec_iface!(RecPar8, u8, InterfaceKind::Parallel8Bit);
 rec_iface!(RecPar16, u16, InterfaceKind::Parallel16Bit);
+
+// ------------------------------------------------------------------------------------------------
+// a zero-sized reset pin (typical for HAL GPIO types): it finds its board through a thread-local
+
+thread_local! {
+    pub static ZRST_BOARD: RefCell<Option<Bd>> = const { RefCell::new(None) };
+}
+pub struct ZRst;
+impl ZRst {
+    pub fn attach(bd: &Bd) -> ZRst {
+        ZRST_BOARD.with(|b| *b.borrow_mut() = Some(bd.clone()));
+        ZRst
+    }
+}
+impl digital::ErrorType for ZRst {
+    type Error = PinFault;
+}
+impl OutputPin for ZRst {
+    fn set_low(&mut self) -> Result<(), PinFault> {
+        let bd = ZRST_BOARD.with(|b| b.borrow().clone()).expect("ZRst not attached");
+        VPin { bd, pin: PIN_RST }.set_low()
+    }
+    fn set_high(&mut self) -> Result<(), PinFault> {
+        let bd = ZRST_BOARD.with(|b| b.borrow().clone()).expect("ZRst not attached");
+        VPin { bd, pin: PIN_RST }.set_high()
+    }
+}
